@@ -8,7 +8,7 @@ from oracles import c09_users_ref as users
 
 TITLE = 'Time-ordered collections are stable priority queues under any history'
 TRANSLATED = []
-MODEL_TARGETS = ['model/TaskQ.vo']
+MODEL_TARGETS = ['model/TaskQ.vo', 'model/ClockSched.vo']
 ALLOWED_AXIOMS = []
 TRUSTED = [
     'CPython heapq (heappush/heappop/nsmallest/nlargest), itertools.count and dict modelled by their specification '
@@ -495,6 +495,69 @@ def check_users(ctx, c, n, kind='correspondence'):
 
 
 
+# ---- the ClockScheduler model (coq/model/ClockSched.v) against the real class -------------------------
+SHEADER = ('From Coq Require Import ZArith QArith List. Import ListNotations.\n'
+           'Require Import SC3.lib.PyNum SC3.model.TaskQ SC3.model.ClockSched.\n')
+SBODY = 'Eval vm_compute in bad_idx scase_ok cases.'
+
+
+def gen_sched(rng):
+    ncl, ntk = rng.choice([1, 2, 2]), rng.randint(1, 3)
+    nct = rng.randint(2, 7)
+    cts = [[10 + rng.randrange(ncl), 100 + rng.randrange(ntk)] for _ in range(nct)]     # several ClockTasks per key
+    times = ['0', '1', '1', '2', '2', '3', '1/2']
+
+    def some(k):
+        out = []
+        for _ in range(k):
+            r = rng.random()
+            if r < 0.6: out.append(['add', rng.choice(times), rng.randint(1, nct)])
+            elif r < 0.85: out.append(['retime', 10 + rng.randrange(ncl), rng.choice(['1', '1/2', '2', '0', '-1']), rng.choice(['0', '1', '2'])])
+            elif r < 0.95: out.append(['iter'])
+            else: out.append(['reset'])
+        return out
+    return {'kind': 'sched', 'cts': cts, 'init': some(rng.randint(2, 8)) + [['iter']],
+            'chunks': [some(rng.choice([0, 0, 1, 2, 3])) for _ in range(rng.randint(0, 6))]}
+
+
+def sop_term(o):
+    if o[0] == 'add': return 'SAdd %s %s' % (cq(Fraction(o[1])), cz(o[2]))
+    if o[0] == 'retime': return 'SRetime %s [%s]' % (cz(o[1]), '; '.join('(%s, %s)' % (cz(i), cq(Fraction(v))) for i, v in o[2]))
+    return {'step': 'SStep', 'reset': 'SReset', 'iter': 'SIter'}[o[0]]
+
+
+def check_sched(ctx, c, n):
+    """flat histories recorded from the real ClockScheduler, replayed by the Coq model (outputs and final state)"""
+    scs = [gen_sched(ctx.rng) for _ in range(n)]
+    res = run_users(ctx, scs)
+    items, idx = [], []
+    fails = []
+    for i, (sc, r) in enumerate(zip(scs, res)):
+        c.count('user:sched')
+        if 'error' in r:
+            fails.append(Failure('correspondence', 'ClockScheduler scenario raised %s: %s' % (r['error'], json.dumps(sc)),
+                                 replay={'scenarios': [sc], 'observed': r}))
+            continue
+        pairs = lambda col: '[%s]' % '; '.join('(%s, %s)' % (cz(k + 1), cz(ct[col])) for k, ct in enumerate(sc['cts']))
+        st = r['state'] if r['state'] is not None else [-1]
+        items.append('(%s, %s, %s, %s, %s)' % (pairs(0), pairs(1), clist(r['ops'], sop_term), clist(r['outs'], out_term), clist(st, cz)))
+        idx.append(i)
+        c.count('sched:wakeups', sum(1 for o in r['outs'] if o[0] == 'T'))
+        c.count('sched:retimes', sum(1 for o in r['ops'] if o[0] == 'retime'))
+        if any(o[0] == 'T' for o in r['outs']):
+            c.nontriv(('sched', json.dumps(sc, sort_keys=True)))
+    c.evaluations += len(scs)
+    bad, errs = fw.check_shards(ctx, 'sched', SHEADER, items, SBODY, shard=ctx.n(40, 100))
+    for e in errs:
+        fails.append(Failure('correspondence', 'coq evaluation of ClockScheduler cases failed: ' + e))
+    for b in sorted(bad, key=lambda b: len(json.dumps(scs[idx[b]])))[:2]:
+        sc, r = scs[idx[b]], res[idx[b]]
+        fails.append(Failure('correspondence', 'ClockScheduler model (coq/model/ClockSched.v) and implementation disagree on %s: '
+                             'flat history %s outputs %s state %s' % (json.dumps(sc), r['ops'], r['outs'], r['state']),
+                             replay={'scenarios': [sc], 'observed': r}))
+    return fails
+
+
 # ---- correspondence --------------------------------------------------------------------------
 def correspond(ctx):
     c = Corr()
@@ -550,6 +613,7 @@ def correspond(ctx):
         c.notes.append('%d disagreeing histories in total, the 5 shortest reported (3 of them shrunk)' % len(bad))
     indirect(ctx, c)
     c.failures.extend(check_users(ctx, c, ctx.n(150, 1500)))
+    c.failures.extend(check_sched(ctx, c, ctx.n(120, 1500)))
     c.notes.append('indirect users II: clock tasks in an NRT process (SystemClock / TempoClocks, re-scheduling while pending, tempo and '
                    'beats changes -> ClockScheduler.retime, main.reset() after aborted histories, empty()-driven run loop), OscScore '
                    'filled from inside routines (latencies None / negative / 0 / positive; list view against raw timetags) and Ppar '
